@@ -86,6 +86,14 @@ def apply1 (cap : Nat) (op : Op) (l : List Nat) : List Nat × Out :=
   | .resizeValA n i => withElem l i fun x => (resize l n x, .unit)
   | .tryPushA _ i => withElem l i fun x => if l.length = cap then (l, .ptr none) else (l ++ [x], .ptr (some x))
   | .uncheckedA _ i => withElem l i fun x => (l ++ [x], .ref x)
+  -- the argument is an rvalue `std::move(t)`: the new element is constructed from it ([sequence.reqmts]: "appends /
+  -- inserts a copy of rv", T Cpp17MoveInsertable; emplace: "constructed with std::forward<Args>(args)..."), so `t` has
+  -- been moved from exactly when an element has been constructed; [inplace.vector.modifiers]: try_push_back /
+  -- try_emplace_back with size() == capacity(): "there are no effects" — `t` is untouched
+  | .pushMv _ x => (l ++ [x], .unitArg true)
+  | .insertMv _ pos x => (insertAt l pos [x], .itArg pos true)
+  | .tryPushMv _ x => if l.length = cap then (l, .ptrArg none false) else (l ++ [x], .ptrArg (some x) true)
+  | .uncheckedMv _ x => (l ++ [x], .refArg x true)
   | _ => (l, .unit)
 
 /-- operations whose result does not depend on the old value of the object -/
@@ -158,6 +166,7 @@ def stateFree : Op → Bool
   | .eraseVal _ => true
   | .eraseIf .. => true
   | .tryPush .. => true
+  | .tryPushMv .. => true
   | .dump => true
   | _ => false
 
